@@ -50,9 +50,9 @@ def jobs_for(tier, seed):
         jobs += [("ex3_s%d" % i, ks, 3, 1, None, 0, 0, 1, inv, 1500) for i, ks in enumerate(SUBSETS[:3])]
         jobs += [("sim5_%d" % i, ALL_KINDS, 5, 2, "num=60", seed * 100 + i + 1, 0, 1, inv, 1500) for i in range(4)]
     else:
-        jobs += [("ex3_s%d" % i, ks, 3, 2, None, 0, 0, 1, inv, 6000) for i, ks in enumerate(SUBSETS)]
-        jobs += [("sim5_%d" % i, ALL_KINDS, 5, 2, "num=500", seed * 100 + i + 1, 0, 1, inv, 6000) for i in range(8)]
-        jobs += [("sim7_%d" % i, ALL_KINDS, 7, 3, "num=150", seed * 100 + i + 51, 0, 1, inv, 6000) for i in range(4)]
+        jobs += [("ex3_s%d" % i, ks, 3, 2 if i < 2 else 1, None, 0, 0, 1, inv, 6000) for i, ks in enumerate(SUBSETS)]
+        jobs += [("sim5_%d" % i, ALL_KINDS, 5, 2, "num=400", seed * 100 + i + 1, 0, 1, inv, 6000) for i in range(8)]
+        jobs += [("sim7_%d" % i, ALL_KINDS, 7, 2, "num=100", seed * 100 + i + 51, 0, 1, inv, 6000) for i in range(4)]
     return jobs
 
 
